@@ -258,6 +258,20 @@ theorem fwdTop_sends_self (cfg : Cfg) {B : Body → Bool} (hB : Tag cfg B) (s : 
     ∀ p ∈ dataSends B (fwdTop cfg s f).out, p ∈ dataSends B s.out ∨ p.2 = f :=
   forward_sends_self cfg hB _ s f
 
+def isTimingB : Body → Bool
+  | .timing _ _ => true
+  | _ => false
+
+theorem tag_timing (cfg : Cfg) : Tag cfg isTimingB := ⟨by intros; rfl, by intros; rfl, by intros; rfl⟩
+theorem ctlIO_timing : CtlIO isTimingB := by intro _ _ _ _ _ _; rfl
+
+def isTrafficB : Body → Bool
+  | .traffic _ _ _ _ => true
+  | _ => false
+
+theorem tag_traffic (cfg : Cfg) : Tag cfg isTrafficB := ⟨by intros; rfl, by intros; rfl, by intros; rfl⟩
+theorem ctlIO_traffic : CtlIO isTrafficB := by intro _ _ _ _ _ _; rfl
+
 /-- the I/O part of a round writes no `B`-frame when `B` is false on acknowledgements, CLIENT_INFO and client data -/
 theorem io_QI (cfg : Cfg) {B : Body → Bool} (hB : Tag cfg B) (hc : CtlIO B) (hack : B .ack = false)
     (hd : ∀ k, B (.data k) = false) (s : State) (a : Bool) (w : List Nat) (rs : List Read) :
